@@ -52,6 +52,25 @@ def stages(tier, rng, only=None):
     nosolver = [c for c in algorun.ALL_CONFIGS if c not in COSTLY and not c.startswith("ParCons")]
     out.append(ac.stage("larger", PID, lambda: ac.cases([ac.larger_dataset(rng) for _ in range(60 if tier == "quick" else 600)],
                                                         nosolver, SCHEMES, flags=(1, 0), namings=ac.NAMINGS3), _nt))
+    multi = ["ExactCplex(noopt)", "BioConsert", "PickAPerm", "Bio[Copeland,KwikSort]", "Bio[Borda,BordaBid]", "BioCo"]
+    out.append(ac.stage("flag_history", PID, lambda: ac.simple_reuse_cases(
+        ac.symmetric_datasets(), multi, SCHEMES, {"kind": "flagflip"})
+        + ac.simple_reuse_cases(ac.symmetric_datasets(), ["Exact(noopt)"], SCHEMES, {"kind": "flagflip"}, env="standin"),
+        _nt))
+
+    def sparse_first():
+        dss = []
+        for _ in range(60 if tier == "quick" else 600):
+            D = ac.cycle_plus_sparse(rng)
+            if rng.random() < .7:
+                D = [D[-1]] + D[:-1]                 # a ranking that misses the whole component comes first
+            if rng.random() < .3:
+                D = [[]] + D
+            dss.append(D)
+        return ac.cases(dss, ["ExactCplex(opt)", "ExactOptim1", "ParCons", "ParCons(b0,BioConsert)", "ParCons(b2,Borda)",
+                              "Exact(opt)"], SCHEMES, namings=ac.NAMINGS3) \
+            + ac.cases(dss, ["Exact(opt)", "ParCons", "ParCons(b3,BioConsert)"], SCHEMES, namings=ac.NAMINGS3, env="standin")
+    out.append(ac.stage("sparse_cycles", PID, sparse_first, _nt))
     out.append(ac.stage("lookalike_rankings", PID, lambda: ac.cases(
         ac.lookalike_datasets(rng, 100 if tier == "quick" else 1000), nosolver, SCHEMES, flags=(0, 1), namings=["weird"]),
         _nt))
